@@ -91,7 +91,13 @@ def run(prog: Program, L: Ledger) -> None:
     for name, lst in defs.items():
         for st, val in lst:
             if isinstance(val, ast.ListComp) and len(val.generators) == 1 and norm(val.generators[0].iter) in ("self.moves", "self.moves.keys()", "self.moves.items()"):
-                due = (name, st, val)
+                # the due list is the one that collects the NAMES (a sibling comprehension over the same traversal may
+                # collect the minimum counts); with a single candidate that one is taken whatever it collects
+                g_ = val.generators[0]
+                key_var = norm(g_.target.elts[0]) if isinstance(g_.target, ast.Tuple) and g_.target.elts else norm(g_.target)
+                if due is None or norm(val.elt) == key_var:
+                    if due is None or norm(due[2].elt) != (norm(due[2].generators[0].target.elts[0]) if isinstance(due[2].generators[0].target, ast.Tuple) else norm(due[2].generators[0].target)):
+                        due = (name, st, val)
     if due is None:
         raise AnalysisError("yield_moves: due-list comprehension over self.moves not found")
     dname, dstmt, dcomp = due
@@ -212,8 +218,32 @@ def run(prog: Program, L: Ledger) -> None:
 
     # ------------------------------------------------------------ forced slots (M3)
     inl = Inliner(ym.node)
-    body_if = [s for s in loop.ast.body if isinstance(s, ast.If)]
-    if len(body_if) != 1 or len(loop.ast.body) != 1:
+    lbody_ = list(loop.ast.body)
+    # `x = M.get(index)` followed by `if x is not None: yield x else: …` is the membership test spelled through .get():
+    # the mapping's values are move names (checked below to be dict(zip(indices, names))), never None
+    if len(lbody_) == 2 and isinstance(lbody_[0], ast.Assign) and len(lbody_[0].targets) == 1 and isinstance(lbody_[0].targets[0], ast.Name) and isinstance(lbody_[1], ast.If) \
+            and isinstance(lbody_[0].value, ast.Call) and isinstance(lbody_[0].value.func, ast.Attribute) and lbody_[0].value.func.attr == "get" \
+            and len(lbody_[0].value.args) == 1 and not lbody_[0].value.keywords and norm(lbody_[0].value.args[0]) == norm(loop.ast.target):
+        xname = lbody_[0].targets[0].id
+        t0 = lbody_[1].test
+        if isinstance(t0, ast.Compare) and len(t0.ops) == 1 and isinstance(t0.ops[0], (ast.Is, ast.IsNot)) and isinstance(t0.left, ast.Name) and t0.left.id == xname \
+                and isinstance(t0.comparators[0], ast.Constant) and t0.comparators[0].value is None:
+            import copy as _copy
+
+            mexpr = lbody_[0].value.func.value
+            new_if = _copy.deepcopy(lbody_[1])
+            new_if.test = ast.Compare(left=_copy.deepcopy(loop.ast.target), ops=[ast.In() if isinstance(t0.ops[0], ast.IsNot) else ast.NotIn()], comparators=[_copy.deepcopy(mexpr)])
+
+            class _SubX(ast.NodeTransformer):
+                def visit_Name(self, node):
+                    if node.id == xname and isinstance(node.ctx, ast.Load):
+                        return ast.Subscript(value=_copy.deepcopy(mexpr), slice=_copy.deepcopy(loop.ast.target), ctx=ast.Load())
+                    return node
+
+            new_if = ast.fix_missing_locations(ast.copy_location(_SubX().visit(new_if), lbody_[1]))
+            lbody_ = [new_if]
+    body_if = [s for s in lbody_ if isinstance(s, ast.If)]
+    if len(body_if) != 1 or len(lbody_) != 1:
         raise AnalysisError("yield_moves: slot loop body is not a single if/else")
     iff = body_if[0]
     test = iff.test
@@ -238,6 +268,16 @@ def run(prog: Program, L: Ledger) -> None:
             and norm(rep_c.generators[0].iter) == norm(dcomp)
             and norm(rep_c.elt) == f"self.moves[{norm(rep_c.generators[0].target)}].minimum_count"
         )
+        if not okc and isinstance(rep_c, ast.ListComp) and isinstance(dcomp, ast.ListComp) and len(rep_c.generators) == 1 and len(dcomp.generators) == 1:
+            # the counts collected by the SAME traversal as the due list (same iterable, target and filter): element-wise aligned
+            g1, g2 = rep_c.generators[0], dcomp.generators[0]
+            same_gen = norm(g1.iter) == norm(g2.iter) and norm(g1.target) == norm(g2.target) and [norm(x) for x in g1.ifs] == [norm(x) for x in g2.ifs]
+            elt_ok = False
+            if same_gen and isinstance(g1.target, ast.Tuple) and len(g1.target.elts) == 2 and norm(g1.iter) == "self.moves.items()":
+                elt_ok = norm(rep_c.elt) in (f"{norm(g1.target.elts[1])}.minimum_count", f"self.moves[{norm(g1.target.elts[0])}].minimum_count")
+            elif same_gen and norm(g1.iter) in ("self.moves", "self.moves.keys()"):
+                elt_ok = norm(rep_c.elt) == f"self.moves[{norm(g1.target)}].minimum_count"
+            okc = same_gen and elt_ok
         ok_forced = norm(rep_a) == norm(dcomp) and okc
     L.check(ok_forced, "M3", "yield_moves:forced-multiset", f"{rel}:{dstmt.lineno}", f"forced multiset is `{ftxt[:100]}`, not repeat(due, [minimum_count of each due move])",
             "a due move is attempted fewer times than its minimum count", ftxt[:160])
